@@ -7,6 +7,7 @@ KINDS = ("mutex", "sem", "cond", "barrier", "mailbox", "exec", "async", "mess")
 class C01(core.Prop):
     id = "C01"
     drivers = ["s4u_interp"]
+    ready = True
     sizes = {"quick": 300, "thorough": 10000}
     max_workers = 6
     technique = ("property-based metamorphic testing (Hypothesis): the same generated program run in fresh processes with different "
